@@ -17,7 +17,7 @@ func init() {
 }
 
 func checkC02(c *Ctx) {
-	r021(c)
+	r021(c, "R02.1 deploy-step-order")
 	r022(c)
 	r023(c)
 	r024(c, "R02.4 proxy-error-inventory")
@@ -33,8 +33,7 @@ func checkC02(c *Ctx) {
 }
 
 // R02.1 deploy step order.
-func r021(c *Ctx) {
-	const rule = "R02.1 deploy-step-order"
+func r021(c *Ctx, rule string) {
 	c.floor(rule, 6)
 	d := c.deployShape(rule)
 	if d == nil {
